@@ -64,6 +64,10 @@ pub fn print_tables() {
         roughenough::config::DEFAULT_STATUS_INTERVAL.as_secs(),
         roughenough::stats::MAX_CLIENTS
     ));
+    // rand's Bernoulli::from_ratio(n, 100) as the generator sees it: the threshold t(n) such that a sample
+    // answers true exactly when the generator's next 64-bit output is below t(n) (2^64: always true)
+    let ths: Vec<String> = (0u32..=100).map(|n| jstr(&bernoulli_threshold(n))).collect();
+    out.push_str(&format!(" \"bernoulli\": [{}],\n", ths.join(", ")));
     out.push_str(&format!(
         " \"bytes\": {{\"TREE_LEAF_TWEAK\": {}, \"TREE_NODE_TWEAK\": {}, \"REQUEST_FRAMING_BYTES\": {}, \"SRV_PREFIX\": {}}}\n}}\n",
         jstr(&hex(roughenough::TREE_LEAF_TWEAK)),
@@ -147,4 +151,58 @@ pub fn tagsweep(lo: u64, hi: u64) {
         }
     }
     println!("TAGSWEEP-OK {} {}", hi - lo, hits);
+}
+
+
+/// a generator that returns one chosen value
+struct FixedRng(u64);
+impl rand::RngCore for FixedRng {
+    fn next_u32(&mut self) -> u32 {
+        self.0 as u32
+    }
+    fn next_u64(&mut self) -> u64 {
+        self.0
+    }
+    fn fill_bytes(&mut self, dest: &mut [u8]) {
+        for (i, b) in dest.iter_mut().enumerate() {
+            *b = (self.0 >> (8 * (i % 8))) as u8;
+        }
+    }
+    fn try_fill_bytes(&mut self, dest: &mut [u8]) -> Result<(), rand::Error> {
+        self.fill_bytes(dest);
+        Ok(())
+    }
+}
+
+/// smallest generator output for which Bernoulli::from_ratio(n, 100) answers false, by bisection
+/// ("18446744073709551616" when it never does); "NONMONOTONE" if the answers are not a threshold
+fn bernoulli_threshold(n: u32) -> String {
+    use rand::distributions::{Bernoulli, Distribution};
+    let d = Bernoulli::from_ratio(n, 100);
+    let at = |v: u64| d.sample(&mut FixedRng(v));
+    if at(u64::MAX) {
+        return "18446744073709551616".to_string();
+    }
+    if !at(0) {
+        return "0".to_string();
+    }
+    let (mut lo, mut hi) = (0u64, u64::MAX); // at(lo) is true, at(hi) is false
+    while hi - lo > 1 {
+        let mid = lo + (hi - lo) / 2;
+        if at(mid) {
+            lo = mid
+        } else {
+            hi = mid
+        }
+    }
+    // spot checks of the threshold shape around the boundary and far from it
+    for k in [1u64, 2, 1000, 1 << 20, 1 << 40, 1 << 60] {
+        if hi > k && !at(hi - k) {
+            return "NONMONOTONE".to_string();
+        }
+        if hi < u64::MAX - k && at(hi + k) {
+            return "NONMONOTONE".to_string();
+        }
+    }
+    hi.to_string()
 }
